@@ -70,3 +70,17 @@ Print Assumptions C19_bad_number_string_is_error.
 Example C19_round_places_strict_refuted :
   to_bits (f_round_places (fneg (of_Z 3592583614394696)) 8) = to_bits (fneg (fadd (of_Z 3592583614394696) (fdiv fone (of_Z 2)))).
 Proof. vm_compute. reflexivity. Qed.
+
+(* round_places: what does hold for every finite x and every scale 10^n exact in binary64
+   (0 <= n <= 22, x * 10^n below 2^1000): half a unit of the n-th place, plus the two roundings of the
+   product and the quotient (u = 2^-53 relative each) and of subnormal results (eta = 2^-1075).
+   The strict bound without the rounding terms is false (D23, refuted above). *)
+From YS Require Import Proofs.RoundPlacesProofs.
+Local Open Scope R_scope.
+Theorem C19_round_places_envelope : forall (x : f64) (n : Z),
+  is_finite x = true -> (0 <= n <= 22)%Z -> Rabs (B2R x) * IZR (10 ^ n) <= bpow radix2 1000 ->
+  is_finite (f_round_places x n) = true /\
+  Rabs (B2R (f_round_places x n) - B2R x)
+    <= / 2 / IZR (10 ^ n) * (1 + u) + Rabs (B2R x) * (2 * u + u * u) + 3 * eta.
+Proof. exact round_places_envelope. Qed.
+Print Assumptions C19_round_places_envelope.
